@@ -102,6 +102,10 @@ source_adapt(ByteSource source, void *driver, void *buf, const size_t n)
         const int rc = source(driver, data + n - rest);
         if (rc == -EINTR || rc == -EAGAIN) {
             continue;
+        } else if (rc == -ENODATA && rest < n) {
+            /* The source ran dry after delivering part of the chunk: report
+             * what was moved; the next call reports -ENODATA. */
+            return (ssize_t)(n - rest);
         } else if (rc < 0) {
             return (ssize_t)rc;
         }
